@@ -577,6 +577,11 @@ def enum_cases(ctx, dicts):
             for e in es:
                 probes.update({e + " ", " " + e, e.swapcase(), e + e, e[:-1], e + "\x01", e.lower(), e.upper(), "0" + e})
             probes.update({"", "?", "Y", "N", "0", "1", "ZZZ", "="})
+            # lists of enumerators (a MultipleValueString reading of a plain enumerated field), other separators
+            for i in range(min(len(es), 4)):
+                for j in range(min(len(es), 4)):
+                    for sep in (" ", ",", "|", "  "):
+                        probes.add(es[i] + sep + es[j])
             for p in sorted(probes):
                 cases.append((f["type"], f["tag"], es, p))
     return cases
